@@ -92,7 +92,7 @@ impl Expr {
     pub fn signed_d(&self, d: &Dialect) -> bool {
         match self {
             Expr::Lit(v) => v.signed(),
-            Expr::Fill(_) => false,
+            Expr::Fill(_) => d.unsized_literal_signed,
             Expr::Un(op, x) => op.is_context() && x.signed_d(d),
             Expr::Bin(op, x, y) => binary_signed(*op, x.signed_d(d), y.signed_d(d), d),
             Expr::Cond(_, a, b) => a.signed_d(d) && b.signed_d(d),
@@ -152,7 +152,10 @@ impl Expr {
         assert!(width >= self.width(), "context narrower than the expression");
         match self {
             Expr::Lit(v) => ctx(v, width, signed, d, n),
-            Expr::Fill(b) => Bv::filled(*b, width, signed),
+            Expr::Fill(b) => {
+                n.add(Latitude::UnsizedLiteralSign);
+                Bv::filled(*b, width, signed)
+            }
             Expr::Un(op, x) => {
                 if op.is_context() {
                     let v = x.eval_in(width, signed, d, n);
